@@ -635,6 +635,7 @@ func (x *Exec) callUnknown(call ast.Node, key string, sig *types.Signature, st *
 	if !pureExternals[key] {
 		x.ctx.note("callee without contract (havoc of all memory): " + key)
 		x.havocAll(st)
+		st.unknownCallee = true
 	} else {
 		x.ctx.note("external assumed free of observable effects: " + key)
 	}
@@ -711,6 +712,7 @@ func (x *Exec) callInterfaceMethod(call *ast.CallExpr, fn *types.Func, recv Term
 	}
 	x.ctx.note("interface method without contract (havoc of all memory): " + key)
 	x.havocAll(st)
+	st.unknownCallee = true
 	var rs []Term
 	for i := 0; i < sig.Results().Len(); i++ {
 		rs = append(rs, x.freshOf(st, "ret", sig.Results().At(i).Type()))
